@@ -146,6 +146,26 @@ def snapshot(comp):
     }
 
 
+def clear_residue(comp):
+    """names of the containers of a component (and of its training data) that are not empty after clear(): a cleared object is a fresh one"""
+    left = []
+    for name in ('active_set', 'candidate_set', 'misc_states', 'misc_costs', 'misc_coeff_train', 'misc_coeff_test', 'model_costs'):
+        try:
+            if len(getattr(comp, name)) > 0:
+                left.append(name)
+        except Exception:
+            pass
+    td = comp.training_data
+    for name in ('betas', 'x_grids', 'yi_map', 'yi_nan_map', 'error_map', 'latent_size'):
+        obj = getattr(td, name, None)
+        try:
+            if obj is not None and len(obj) > 0:
+                left.append('training_data.' + name)
+        except Exception:
+            pass
+    return left
+
+
 def impl_trace(case):
     na, nd, ns, mx, reqs = case['na'], case['nd'], case['ns'], tuple(case['mx']), case['reqs']
     comp = make_component(na, nd, ns, mx)
@@ -155,6 +175,7 @@ def impl_trace(case):
             comp.activate_index(tuple(r[:na]), tuple(r[na:]))
         comp.clear()
         comp.training_data.clear()
+        case['_clear_residue'] = clear_residue(comp)
     snaps = []
     case['_fail_snaps'] = []
     for k, r in enumerate(reqs):
@@ -311,6 +332,9 @@ def run(ctx: Ctx, which: str):
         comp, snaps = impl_trace(c)
         mx = tuple(c['mx'])
         nacc = 0
+        left = c.pop('_clear_residue', None)
+        if left:
+            ctx.violate(f'{which}:state-survives-clear', f'after clear() the component still holds {left}: a cleared object must behave like a fresh one', c)
         if isinstance(mo, ModelError):
             ctx.disagree('misc_trace', c, str(mo), 'ok')
             continue
